@@ -105,6 +105,7 @@ func (m *Mutation) Execute() error {
 	bm := m.hiresCache
 	var err error
 	for scale := uint8(0); scale < m.d.GetMaxDownresLevel(); scale++ {
+		dvid.VerifYield("downres.Execute")
 		bm, err = m.d.StoreDownres(m.v, scale, bm)
 		if err != nil {
 			// release the remaining scales so the instance does not report itself as updating forever
